@@ -145,7 +145,18 @@ def gen_vector(rng, lo, up, kind):
     raise ValueError(kind)
 
 
-def evaluate(cl, x):
+def tabulated(cl, kw):
+    """user-tabulated angular diameter distances (the optional kwargs_cosmo_interp of likelihood())"""
+    from astropy.cosmology import FlatLambdaCDM
+    ref = FlatLambdaCDM(H0=kw.get("h0", 70.0), Om0=min(max(kw.get("om", 0.3), 0.05), 0.95))
+    zs = np.linspace(0, max(float(cl._z_max), 0.5) * 1.2 + 0.1, 40)
+    tab = {"ang_diameter_distances": ref.angular_diameter_distance(zs).value, "redshifts": zs}
+    if "ok" in kw:
+        tab["K"] = -kw["ok"] * (kw.get("h0", 70.0) / 299792.458) ** 2
+    return tab
+
+
+def evaluate(cl, x, interp=None):
     """returns (value or err, number of lens-sample evaluations, number of SNe evaluations, lens terms before nan_to_num)"""
     counts = {"lens": 0, "sne": 0}
     raw_terms = []
@@ -178,7 +189,7 @@ def evaluate(cl, x):
         cl._sne_likelihood.log_likelihood = sw
     try:
         with np.errstate(all="ignore"):
-            v = cl.likelihood(list(x))
+            v = cl.likelihood(list(x)) if interp is None else cl.likelihood(list(x), kwargs_cosmo_interp=interp)
         out = {"value": float(np.squeeze(v))}
     except Exception as e:  # noqa
         out = {"err": err_enum(e), "msg": str(e)[:100]}
@@ -193,10 +204,11 @@ def evaluate(cl, x):
 
 def oracle(cfg, cl, x, kind, lo, up):
     fails = []
-    out, counts, raw, sne_val = evaluate(cl, x)
-    inside = all(a <= v <= b for v, a, b in zip(x, lo, up))
     names = cl.param.param_list()
     kw = dict(zip(names, x))
+    interp = tabulated(cl, kw) if kind.startswith("tab_") else None
+    out, counts, raw, sne_val = evaluate(cl, x, interp)
+    inside = all(a <= v <= b for v, a, b in zip(x, lo, up))
     phys = True
     if cfg["cosmology"] == "oLCDM":
         ztop = max([cl._z_max] + [kwl.get("z_source2", kwl.get("z_source", 1100)) for kwl, _, _ in cfg["lenses"]])
@@ -254,6 +266,8 @@ def run(ctx, res):
             continue
         lo, up = [float(v) for v in cl.param.param_bounds[0]], [float(v) for v in cl.param.param_bounds[1]]
         vectors = [(k, gen_vector(rng, lo, up, k)) for k in KINDS]
+        # the same gate must act when the caller supplies tabulated distances
+        vectors += [("tab_" + k, gen_vector(rng, lo, up, k)) for k in ("inside", "far_outside")]
         if cfg["cosmology"] == "oLCDM":
             names = cl.param.param_list()
             io, ik = names.index("om"), names.index("ok")
@@ -261,6 +275,8 @@ def run(ctx, res):
                 x = gen_vector(rng, lo, up, "inside")
                 x[io], x[ik] = om, ok
                 vectors.append(("olcdm_boundary", x))
+                if rng.random() < 0.5:
+                    vectors.append(("tab_olcdm_boundary", list(x)))
             # points where E(z)^2 is positive at every source redshift but dips below zero in between
             lens_zs = [kwl.get("z_source2", kwl.get("z_source", 1100)) for kwl, _, _ in cfg["lenses"]]
             ztop = max([cl._z_max] + lens_zs)
@@ -289,6 +305,8 @@ def run(ctx, res):
                             "x": x, "kind": kind, "result": out})
             if "err" in out:
                 continue
+            if kind.startswith("tab_") and "value" in out and inside and phys and out["value"] < -1e300:
+                continue   # tabulated fiducial distances far from the data: floored terms, nothing to compare
             lens_z = [float(kwl.get("z_source2", kwl.get("z_source", 1100))) for kwl, _, _ in cfg["lenses"]]
             lines.append({"op": "C02.likelihood", "lower": [f2b(v) for v in lo], "upper": [f2b(v) for v in up],
                           "olcdm": cfg["cosmology"] == "oLCDM", "lensZ": [f2b(z) for z in lens_z], "zMax": f2b(float(cl._z_max)),
